@@ -150,6 +150,18 @@ impl Prop for C07 {
             r.fail(format!("C07:{}:len", kind), format!("a control response of {} bytes cannot hold its headers and completion code", len));
             return r;
         }
+        // the same response into a buffer that is exactly as long as the response (and one
+        // with a single spare byte): if the encoder accepts the buffer, the bytes are the same
+        for spare in [0usize, 1] {
+            let (e_fit, buf_fit) = encode_in(&case.env, &case.call, len + spare, |i| 0x50 | (i as u8 & 0x0F));
+            if let Enc::Ok(n2) = e_fit {
+                if n2 > buf_fit.len() || buf_fit[..n2] != buf[..len] {
+                    r.label("exact_fit_checked");
+                    r.fail(format!("C07:{}:depends_on_buffer_capacity", kind), format!("into a {}-byte buffer the encoder writes {} , into a {}-byte buffer {}", BIG, hex(&buf[..len]), len + spare, hex(&buf_fit[..n2.min(buf_fit.len())])));
+                    break;
+                }
+            }
+        }
         let body = &buf[9..len - 1];
         if body[0] & 0xE0 != 0 {
             r.fail(format!("C07:{}:ctrl_bits", kind), format!("control byte {:#04x} has request/datagram/reserved bits set", body[0]));
